@@ -61,6 +61,20 @@ REAL = [
     ('RETURN = query_bucket([' + ", ".join(str(i) for i in range(40)) + ']);', "QueryFunction"),
     ('RETURN = query_bucket(query_bucket("win"));', "QueryFunction"),
     ('RETURN = limit_events(query_bucket("win"), [' + ", ".join('"x"' for i in range(33)) + ']);', "QueryFunction"),
+    # a program may rebind the reserved names of its own window; when they no longer hold dates the two reading
+    # built-ins refuse with a function error, like for any other argument they cannot use
+    ('STARTTIME = "yesterday"; RETURN = query_bucket("win");', "QueryFunction"),
+    ('STARTTIME = "yesterday"; RETURN = query_bucket_eventcount("win");', "QueryFunction"),
+    ('ENDTIME = "2020-13-45"; RETURN = query_bucket_eventcount(find_bucket("wi"));', "QueryFunction"),
+    ('ENDTIME = "2020-13-45"; RETURN = sort_by_timestamp(query_bucket("afk"));', "QueryFunction"),
+    ('STARTTIME = 5; RETURN = query_bucket_eventcount("win");', "QueryFunction"),
+    ('ENDTIME = [1, 2]; RETURN = query_bucket("win");', "QueryFunction"),
+    ('STARTTIME = {"a": 1}; RETURN = query_bucket_eventcount("afk");', "QueryFunction"),
+    ('STARTTIME = ENDTIME; ENDTIME = NAME; RETURN = query_bucket(find_bucket("wi"));', "QueryFunction"),
+    ('STARTTIME = ENDTIME; ENDTIME = NAME; RETURN = query_bucket_eventcount("win");', "QueryFunction"),
+    ('STARTTIME = "yesterday"; RETURN = query_bucket_eventcount("nosuch");', "QueryFunction"),
+    ('STARTTIME = "2020-01-01"; ENDTIME = "2020-01-02T00:00:00+01:00"; RETURN = query_bucket_eventcount("win");', "value"),
+    ('STARTTIME = "2020-01-01T00:00:00Z"; RETURN = query_bucket("win");', "value"),
     ('e = query_bucket("win"); RETURN = filter_keyvals(e, concat(e, concat(e, concat(e, concat(e, concat(e, e))))), ["a"]);', "QueryFunction"),
 ]
 
